@@ -63,7 +63,18 @@ fn radix_alternatives(v: i64, current: &str) -> Vec<String> {
 /// every single-site rewrite of the program
 fn sites(lines: &[Line]) -> Vec<Edit> {
     let mut v = vec![];
+    // names already assigned by an earlier .set: the left-hand side of a later .set refers to them
+    let mut assigned: BTreeSet<String> = BTreeSet::new();
     for (li, l) in lines.iter().enumerate() {
+        if l.directive.as_deref() == Some("set") {
+            if let Some((ti, t)) = l.toks.iter().enumerate().find(|(_, t)| t.role == Role::SymDef) {
+                if assigned.contains(&t.text.to_lowercase()) {
+                    v.push(Edit { group: 11, kind: "set-reassignment-upper-case", line: li, tok: ti, op: Op::ReplaceTok(t.text.to_uppercase()) });
+                    v.push(Edit { group: 11, kind: "set-reassignment-mixed-case", line: li, tok: ti, op: Op::ReplaceTok(mixed(&t.text)) });
+                }
+                assigned.insert(t.text.to_lowercase());
+            }
+        }
         let n = l.toks.len();
         let has_comment = l.toks.iter().any(|t| t.role == Role::Comment);
         let sig: Vec<usize> = (0..n).filter(|i| !matches!(l.toks[*i].role, Role::Ws | Role::Comment)).collect();
@@ -71,13 +82,20 @@ fn sites(lines: &[Line]) -> Vec<Edit> {
         // comments
         if !has_comment {
             // comment texts that look like other syntax: a comment is a comment whatever it says
-            let texts = ["note", "see inc/*.inc for the tables", "a ; b // c", "ldi r16, 1", "\"quoted\" 'c'", ".endif .endm .exit", "*/ stray closer", "100% (done) @0"];
+            let texts = ["note", "fallback: default value", "see inc/*.inc for the tables", "a ; b // c", "ldi r16, 1", "\"quoted\" 'c'", ".endif .endm .exit", "*/ stray closer", "100% (done) @0"];
             let t = texts[li % texts.len()];
             v.push(Edit { group: 0, kind: "trailing-semicolon-comment", line: li, tok: n, op: Op::AppendLine(format!(" ; {}", t)) });
             v.push(Edit { group: 0, kind: "trailing-slash-comment", line: li, tok: n, op: Op::AppendLine(format!(" // {}", t)) });
             // a block comment ends at the first closer: its text must not contain one
             let tb = if t.contains("*/") { "note /* nested opener" } else { t };
             v.push(Edit { group: 0, kind: "trailing-block-comment", line: li, tok: n, op: Op::AppendLine(format!(" /* {} */", tb)) });
+            // ... and glued to the last token, without a blank (not after a number or name for
+            // "//" and "/*": `4//x` is still a comment, but keep the site list simple)
+            if first_sig.is_some() {
+                v.push(Edit { group: 0, kind: "glued-semicolon-comment", line: li, tok: n, op: Op::AppendLine(format!(";{}", t)) });
+                v.push(Edit { group: 0, kind: "glued-slash-comment", line: li, tok: n, op: Op::AppendLine(format!("//{}", t)) });
+                v.push(Edit { group: 0, kind: "glued-block-comment", line: li, tok: n, op: Op::AppendLine(format!("/*{}*/", tb)) });
+            }
         } else {
             let ci = l.toks.iter().position(|t| t.role == Role::Comment).unwrap();
             // a block comment that is not the last token on the line is left alone
@@ -87,6 +105,7 @@ fn sites(lines: &[Line]) -> Vec<Edit> {
                     v.push(Edit { group: 8, kind: "space-before-comment", line: li, tok: ci, op: Op::InsertBeforeTok("  ".into()) });
                 } else if ci > 0 && l.toks[ci - 1].role == Role::Ws && first_sig.is_some() {
                     v.push(Edit { group: 8, kind: "tab-before-comment", line: li, tok: ci - 1, op: Op::ReplaceTok("\t \t".into()) });
+                    v.push(Edit { group: 8, kind: "no-blank-before-comment", line: li, tok: ci - 1, op: Op::RemoveTok });
                 }
             }
         }
@@ -391,7 +410,7 @@ pub fn run(tier: Tier) -> i32 {
         }
     });
     let ku = kinds_used.lock().unwrap().clone();
-    for k in ["trailing-semicolon-comment", "trailing-slash-comment", "trailing-block-comment", "remove-trailing-comment", "comment-only-line", "blank-line", "spaces-tabs", "extra-blanks", "space-after-comma", "space-before-comma", "space-before-operator", "no-space-before-operator", "space-after-lparen", "space-before-rparen", "lf-to-crlf", "mnemonic-upper-case", "register-case", "function-upper-case", "symbol-reference-upper-case", "hex-digit-case", "radix", "space-before-comment"] {
+    for k in ["trailing-semicolon-comment", "trailing-slash-comment", "trailing-block-comment", "remove-trailing-comment", "comment-only-line", "blank-line", "spaces-tabs", "extra-blanks", "space-after-comma", "space-before-comma", "space-before-operator", "no-space-before-operator", "space-after-lparen", "space-before-rparen", "lf-to-crlf", "mnemonic-upper-case", "register-case", "function-upper-case", "symbol-reference-upper-case", "hex-digit-case", "radix", "space-before-comment", "set-reassignment-upper-case", "glued-semicolon-comment", "no-blank-before-comment"] {
         rep.guard(ku.get(k).copied().unwrap_or(0) > 0, &format!("rewrite kind {} has no site in the corpus", k));
     }
     rep.guard(usable.len() >= 24, "fewer than 24 usable programs");
